@@ -132,11 +132,17 @@ func c06GenProgram(rt *rapid.T, maxBody int) []prog.Op {
 	n := rapid.IntRange(4, 30).Draw(rt, "n")
 	partNums := []int{1, 2, 3, 5, 100, 9999, 10000}
 	for i := 0; i < n; i++ {
-		kind := rapid.SampledFrom([]string{"init", "part", "part", "part", "part", "complete", "complete", "abort", "put", "get"}).Draw(rt, "kind")
+		kind := rapid.SampledFrom([]string{"init", "part", "part", "part", "part", "complete", "complete", "abort", "put", "get", "mkbucket"}).Draw(rt, "kind")
 		if len(sh.parts) == 0 || (len(sh.parts) < 4 && i < 3) {
 			kind = "init"
 		}
 		switch kind {
+		case "mkbucket":
+			// a request to create the bucket the uploads live in: refused (it exists), and nothing
+			// that is pending in it is touched
+			if rapid.IntRange(0, 2).Draw(rt, "domk") == 0 {
+				ops = append(ops, prog.Op{K: "mkbucket", B: "bk0"})
+			}
 		case "init":
 			if len(sh.parts) >= 4 {
 				continue
